@@ -142,7 +142,11 @@ func (u *UDP) SetInternalPortsForTesting() {
 }
 
 func (u *UDP) VerifyChecksum() (error, gopacket.ChecksumVerificationResult) {
-	bytes := append(u.Contents, u.Payload...)
+	// Do not append to u.Contents directly: it has spare capacity inside the
+	// packet buffer, so that would write into (shared) packet data.
+	bytes := make([]byte, 0, len(u.Contents)+len(u.Payload))
+	bytes = append(bytes, u.Contents...)
+	bytes = append(bytes, u.Payload...)
 
 	existing := u.Checksum
 	verification, err := u.computeChecksum(bytes, IPProtocolUDP)
